@@ -16,6 +16,7 @@ type Clause struct {
 	Arg  string // e.g. loop ordinal, callback name
 	Text string
 	E    *Expr
+	Cond *Expr // modifies-if: the item may change only when Cond holds in the pre-state
 	Line int
 	File string
 }
@@ -48,6 +49,7 @@ type TypeSpec struct {
 	Name       string // pkgpath.Type
 	Invariants []*Clause
 	GhostField map[string]string // name -> sort
+	GhostZero  map[string]bool   // ghost fields that are 0 in a zero-valued object
 	Monitors   []*MonitorSpec
 	Callbacks  map[string]*Contract // contracts of function-typed fields
 	File       string
@@ -119,7 +121,7 @@ func (ss *SpecSet) LoadFile(path, pkgPath string, trusted bool) error {
 }
 
 var clauseKW = map[string]bool{"requires": true, "ensures": true, "modifies": true, "instantiate": true, "loop": true,
-	"ghost": true, "callback": true, "panics-iff": true, "panics-when": true, "invariant": true, "opt": true, "monitor": true, "assert": true,
+	"ghost": true, "callback": true, "modifies-if": true, "panics-iff": true, "panics-when": true, "invariant": true, "opt": true, "monitor": true, "assert": true,
 	"func": true, "assume-func": true, "type": true, "assumes": true, "global-invariant": true, "axiom": true, "specfun": true, "global": true, "sentinel": true, "package": true, "end": true}
 
 func (ss *SpecSet) parse(src, file, pkgPath string, trusted bool) error {
@@ -294,7 +296,16 @@ func (ss *SpecSet) parse(src, file, pkgPath string, trusted bool) error {
 				if len(f) != 2 {
 					return fmt.Errorf("%s:%d: ghost field needs name and sort", file, l.no)
 				}
-				curT.GhostField[f[0]] = sortAlias(strings.TrimSpace(f[1]))
+				gsort := strings.TrimSpace(f[1])
+				if strings.HasSuffix(gsort, " zero") {
+					// "ghost n Int zero": the field is 0 in a freshly allocated (zero-valued) object
+					gsort = strings.TrimSpace(strings.TrimSuffix(gsort, " zero"))
+					if curT.GhostZero == nil {
+						curT.GhostZero = map[string]bool{}
+					}
+					curT.GhostZero[f[0]] = true
+				}
+				curT.GhostField[f[0]] = sortAlias(gsort)
 			} else if cur != nil {
 				// ghost at return: name = expr | ghost at entry: ...
 				j := strings.Index(rest, ":")
@@ -331,7 +342,7 @@ func (ss *SpecSet) parse(src, file, pkgPath string, trusted bool) error {
 				ss.Sentinels[n] = true
 			}
 		case "axiom":
-			cl, err := mk("axiom", "", rest, l.no)
+			cl, err := mk("axiom", pkgPath, rest, l.no)
 			if err != nil {
 				return err
 			}
@@ -407,6 +418,24 @@ func (ss *SpecSet) parse(src, file, pkgPath string, trusted bool) error {
 					if err != nil {
 						return err
 					}
+					tgt.Modifies = append(tgt.Modifies, cl)
+				}
+			case "modifies-if":
+				// modifies-if <cond> then a, b: the items may change only when cond holds in the pre-state
+				j := strings.Index(rest, " then ")
+				if j < 0 {
+					return fmt.Errorf("%s:%d: modifies-if <cond> then <items>", file, l.no)
+				}
+				ce, err := ParseExpr(strings.TrimSpace(rest[:j]))
+				if err != nil {
+					return fmt.Errorf("%s:%d: %v", file, l.no, err)
+				}
+				for _, item := range splitTop(rest[j+len(" then "):]) {
+					cl, err := mk("modifies", "", item, l.no)
+					if err != nil {
+						return err
+					}
+					cl.Cond = ce
 					tgt.Modifies = append(tgt.Modifies, cl)
 				}
 			case "loop":
